@@ -375,3 +375,30 @@ pub fn alt_table(plan: &[u64; 256]) -> [[u64; 3]; 256] {
     }
     a
 }
+
+// ---------------------------------------------------------------------------
+// serde (C20): keys and values travel as u64 = id << 32 | token
+// ---------------------------------------------------------------------------
+
+impl serde::Serialize for TKey {
+    fn serialize<S: serde::Serializer>(&self, s: S) -> Result<S::Ok, S::Error> {
+        s.serialize_u64((self.id as u64) << 32 | self.tok as u64)
+    }
+}
+impl<'de> serde::Deserialize<'de> for TKey {
+    fn deserialize<D: serde::Deserializer<'de>>(d: D) -> Result<Self, D::Error> {
+        let v = u64::deserialize(d)?;
+        Ok(TKey::make((v >> 32) as u8, v as u32))
+    }
+}
+impl serde::Serialize for TVal {
+    fn serialize<S: serde::Serializer>(&self, s: S) -> Result<S::Ok, S::Error> {
+        s.serialize_u64(self.tok as u64)
+    }
+}
+impl<'de> serde::Deserialize<'de> for TVal {
+    fn deserialize<D: serde::Deserializer<'de>>(d: D) -> Result<Self, D::Error> {
+        let v = u64::deserialize(d)?;
+        Ok(TVal::make(v as u32))
+    }
+}
